@@ -5,4 +5,6 @@
 pub mod bits;
 pub mod chunk;
 pub mod container;
+pub mod gen;
+pub mod headers;
 pub mod src;
